@@ -18,6 +18,9 @@
                 obs = [raised, nparts, ndivs, divs, parts, wholeok] as produced by
                 harness.frameobs.observe (rows are [rid, idx])
 
+   "truth"      any collection, however produced                              (C41)
+                obs (as above); judged by the divisions-truthfulness invariant
+
    A call that raised is logged with raised = the exception name and empty
    results; raising on a legal request is a failed clause ("Raised").                                                   *)
 EXTENDS Divisions, TraceIO
@@ -32,6 +35,7 @@ Bad(r) ==
          \* a source that breaks the precondition is a harness error, reported as such
          IF ~(SumSeq(r.layout) = Len(r.idx) /\ Truthful(src)) THEN {"BadSource"} ELSE RepartBad(src, r.arg, r.obs)
     [] r.op = "from_pandas" -> FromPandasBad(r.idx, r.arg, r.obs)
+    [] r.op = "truth" -> TruthBad(r.obs)
     [] OTHER -> {"UnknownOp"}
 
 Init == TInit
